@@ -109,7 +109,9 @@ public:
     if(it == _end)
       return 0;
     usize count = 1;
-    for(Item* item = it.item->next; item && item->key == key; item = item->next)
+    for(Item* item = it.item->next; item != &endItem && item->key == key; item = item->next)
+      ++count;
+    for(Item* item = it.item->prev; item && item->key == key; item = item->prev)
       ++count;
     return count;
   }
